@@ -65,7 +65,44 @@ mod simd;
 /// Verification hook: the private SIMD filter kernels, re-exported for external harnesses.
 #[cfg(feature = "neumann_verif")]
 pub mod verif_simd {
-    pub use crate::simd::*;
+    use crate::simd;
+
+    /// Runs the i64 filter kernel selected by `op` (0 lt, 1 le, 2 gt, 3 ge, 4 eq, 5 ne).
+    pub fn filter_i64(op: u8, values: &[i64], threshold: i64, result: &mut [u64]) {
+        match op {
+            0 => simd::filter_lt_i64(values, threshold, result),
+            1 => simd::filter_le_i64(values, threshold, result),
+            2 => simd::filter_gt_i64(values, threshold, result),
+            3 => simd::filter_ge_i64(values, threshold, result),
+            4 => simd::filter_eq_i64(values, threshold, result),
+            _ => simd::filter_ne_i64(values, threshold, result),
+        }
+    }
+
+    /// Runs the f64 filter kernel selected by `op` (0 lt, 2 gt, 4 eq).
+    pub fn filter_f64(op: u8, values: &[f64], threshold: f64, result: &mut [u64]) {
+        match op {
+            0 => simd::filter_lt_f64(values, threshold, result),
+            2 => simd::filter_gt_f64(values, threshold, result),
+            _ => simd::filter_eq_f64(values, threshold, result),
+        }
+    }
+
+    /// Bitmap conjunction kernel.
+    pub fn bitmap_and(a: &[u64], b: &[u64], result: &mut [u64]) {
+        simd::bitmap_and(a, b, result);
+    }
+
+    /// Bitmap disjunction kernel.
+    pub fn bitmap_or(a: &[u64], b: &[u64], result: &mut [u64]) {
+        simd::bitmap_or(a, b, result);
+    }
+
+    /// Set-bit positions of a bitmap, at most `max_count`.
+    #[must_use]
+    pub fn selected_indices(bitmap: &[u64], max_count: usize) -> Vec<usize> {
+        simd::selected_indices(bitmap, max_count)
+    }
 }
 
 pub mod cursor;
